@@ -137,6 +137,9 @@ pub fn decode(flavour: &str, data: &[u8]) -> Case {
             c.set("mode", b.below(4));
             c.set("hint", b.below(8));
             c.set("pre", b.below(40));
+            // derived (not an extra input byte, so that the committed corpus keeps its meaning)
+            let pre = c.h("pre");
+            c.set("etype", if pre >= 28 { 1 + (pre - 28) % 6 } else { 0 });
             let u = [3u64, 10, 60, 5000][b.below(4) as usize];
             key_space = u;
             let err = b.u16() as u64;
